@@ -326,27 +326,32 @@ def build_mt(w):
                  'forall(Obj, lambda c: (c in self._cache) == ((c in old(self._cache)) and not exists(0, i, lambda j: client_ids[j] == c)))',
                  'forall(Obj, lambda c: implies(c in self._cache, self._cache[c] == old(self._cache)[c]))',
                  'len(self._invalidated_clients) == 0', 'heap_same_except("MTW._cache", self) and heap_same_except("MTW._invalidated_clients", self)'])})
+    INV_ = lambda wk, c: 'exists(0, len(%s._invalidated_clients), lambda j: %s._invalidated_clients[j] == %s)' % (wk, wk, c)
+    w.contract(POOL, 'MultiTenantWorker.get_tenant_schema', params={'self': 'MTW', 'client_id': 'Obj'}, returns='Opt[TS]',
+        # what is recorded about a tenant counts only while the tenant is not marked for invalidation (the worker process drops those first)
+        ensures=['is_none(result) == (not (client_id in self._cache) or %s)' % INV_('self', 'client_id'),
+                 'implies(not is_none(result), some(result) == self._cache[client_id])'])
     CBQ = 'MultiTenantPool._compute_compile_preargs.<locals>.sync_worker_state_cb'
     OPTS = {'user_schema_pickle': 'Opt[Obj]', 'global_schema_pickle': 'Opt[Obj]', 'reflection_cache': 'Opt[Obj]', 'database_config': 'Opt[Obj]', 'instance_config': 'Opt[Obj]'}
     P = {'worker': 'MTW', 'client_id': 'Obj', 'dbname': 'Obj'}; P.update(OPTS)
-    KNOWN = 'client_id in worker._cache'
-    INVAL = 'exists(0, len(old(worker._invalidated_clients)), lambda j: old(worker._invalidated_clients)[j] == client_id)'
+    KNOWN = '(client_id in worker._cache and not %s)' % INV_('worker', 'client_id')       # the belief the transmitted diff was computed against
     def rec(comp, fld):
         # the belief after the acknowledgement: what was transmitted, else what was believed before
-        return ('implies(not (%s), worker._cache[client_id].%s == (some(%s) if not is_none(%s) else old(worker._cache[client_id].%s)))'
-                % (INVAL, fld, comp, comp, fld))
+        return ('worker._cache[client_id].%s == (some(%s) if not is_none(%s) else old(worker._cache[client_id].%s))' % (fld, comp, comp, fld))
     w.contract(POOL, CBQ, params=P,
-        requires=['implies(not (%s), %s)' % (KNOWN, ' and '.join('not is_none(%s)' % c for c in OPTS)),
+        requires=['implies(not %s, %s)' % (KNOWN, ' and '.join('not is_none(%s)' % c for c in OPTS)),
                   'implies(%s and not (dbname in worker._cache[client_id].dbs), not is_none(user_schema_pickle) and not is_none(reflection_cache) and not is_none(database_config))' % KNOWN,
                   'implies(not is_none(user_schema_pickle), bool(some(user_schema_pickle)))',
                   'implies(%s and dbname in worker._cache[client_id].dbs, bool(worker._cache[client_id].dbs[dbname].user_schema_pickle))' % KNOWN],
         modifies=['MTW._cache', 'MTW._last_used_by_client', 'MTW._invalidated_clients', '$alloc'] + TSF,
-        ensures=['implies(not (%s), client_id in worker._cache and dbname in worker._cache[client_id].dbs)' % INVAL,
+        ensures=['client_id in worker._cache and dbname in worker._cache[client_id].dbs',
                  rec('user_schema_pickle', 'dbs[dbname].user_schema_pickle'), rec('reflection_cache', 'dbs[dbname].reflection_cache'),
                  rec('database_config', 'dbs[dbname].database_config'), rec('global_schema_pickle', 'global_schema_pickle'), rec('instance_config', 'system_config'),
                  # the tenant's other databases keep their recorded state
-                 'implies(not (%s) and old(%s), map_same_except(worker._cache[client_id].dbs, old(worker._cache[client_id].dbs), dbname))' % (INVAL, KNOWN),
-                 'len(worker._invalidated_clients) == 0'])
+                 'implies(old(%s), map_same_except(worker._cache[client_id].dbs, old(worker._cache[client_id].dbs), dbname))' % KNOWN,
+                 # the invalidated tenants are forgotten (as in the worker process), nobody else is
+                 'len(worker._invalidated_clients) == 0',
+                 'forall(Obj, lambda c: implies(c != client_id, (c in worker._cache) == ((c in old(worker._cache)) and not exists(0, len(old(worker._invalidated_clients)), lambda j: old(worker._invalidated_clients)[j] == c))))'])
 
 def configure(vf):
     pass
@@ -364,5 +369,18 @@ def scenarios(tier, seed, repo_root, outdir):
     r = json.load(open(out))
     if not r['failure'] and (r['stats']['compiled'] < r['histories'] or r['stats']['tx'] == 0 or r['stats']['failed_sync'] == 0):
         raise RuntimeError('scenario explorer is vacuous: %r' % r['stats'])
-    return dict(stats=r['stats'], evaluations=r['histories'], failure=r['failure'], label='request histories <= %d steps over 2 databases x 2 workers, state changes incl. empty maps, failed syncs (bounded)' % ln,
+    # multi-tenant pool: MultiTenantPool / MultiTenantWorker + the real multitenant_worker.py handlers
+    out2 = os.path.join(outdir, 'scenario_mt_out.json')
+    if os.path.exists(out2): os.unlink(out2)
+    p2 = subprocess.run(['/venv/bin/python', os.path.join(here, 'scenario_mt.py'), str(seed), str(n), str(ln), out2], capture_output=True, text=True, env=env, cwd=repo_root, timeout=3000)
+    if not os.path.exists(out2): raise RuntimeError('multi-tenant scenario runner failed: ' + (p2.stderr or p2.stdout)[-2000:])
+    r2 = json.load(open(out2))
+    if not r2['failure'] and (r2['stats']['compiled'] == 0 or r2['stats']['evictions'] == 0 or r2['stats']['drops'] == 0 or r2['stats']['failed_sync'] == 0):
+        raise RuntimeError('multi-tenant scenario explorer is vacuous: %r' % r2['stats'])
+    fail = r['failure']
+    if not fail and r2['failure']: fail = dict(pool='MultiTenantPool', **r2['failure'])
+    if not fail and r2.get('other_failures'): fail = dict(pool='MultiTenantPool', **r2['other_failures'][0])
+    if not fail and r2['stats'].get('nonfaulty_failed'): pass     # availability only (a request failed although nothing was wrong with it): reported in the stats, not a violation of C17
+    return dict(stats=r['stats'], stats_multitenant=r2['stats'], evaluations=r['histories'] + r2['histories'], failure=fail,
+                label='request histories <= %d steps over 2 databases x 2 workers, state changes incl. empty maps, failed syncs; multi-tenant pool: 3 tenants x 2 databases x 2 workers, cache size 2, evictions, drop_tenant (bounded)' % ln,
                 clause='every request that reaches the compiler is compiled with exactly the state supplied with it')
